@@ -57,6 +57,52 @@ def real_core(job):
                     back = typelib.unmarshal(ann, box["m"])
                     res["mar2"] = enc.run_real(lambda: typelib.marshal(back, t=ann), P)
             outs.append(res)
+        elif kind == "textequiv":
+            # C14: JSON text / Python-literal text of a wire value vs the decoded value
+            import json as _json
+            wire = v
+            res = {"decoded": enc.run_real(lambda: typelib.unmarshal(ann, wire), P)}
+            try:
+                jt = _json.dumps(wire)
+                res["json_text"] = jt
+                res["json"] = enc.run_real(lambda: typelib.unmarshal(ann, jt), P)
+                res["json_bytes"] = enc.run_real(lambda: typelib.unmarshal(ann, jt.encode()), P)
+            except (TypeError, ValueError):
+                pass
+            rt = repr(wire)
+            res["repr_text"] = rt
+            res["repr"] = enc.run_real(lambda: typelib.unmarshal(ann, rt), P)
+            outs.append(res)
+        elif kind == "strload":
+            import json as _json
+            from typelib import serdes
+            s = op["s"]
+            res = {"strload": enc.run_real(lambda: serdes.strload(s), P), "load": enc.run_real(lambda: serdes.load(s), P),
+                   "load_bytes": enc.run_real(lambda: serdes.load(s.encode()), P)}
+            def _strict(c):
+                raise ValueError(f"non-standard JSON constant {c}")
+            try:
+                # strict RFC 8259: NaN / Infinity are not JSON
+                res["json"] = {"ok": enc.from_py(_json.loads(s, parse_constant=_strict), P)}
+            except ValueError:
+                res["json"] = None
+            try:
+                import ast as _ast
+                _ast.literal_eval(s)
+                res["literal"] = True
+            except Exception:  # noqa: BLE001
+                res["literal"] = False
+            for nt in (5, None, 2.5, (1, 2)):
+                if serdes.load(nt) is not nt:
+                    res["nontext_changed"] = repr(nt)
+            outs.append(res)
+        elif kind == "union":
+            members = [P.annotation(m) for m in op["members"]]
+            res = {"union": enc.run_real(lambda: typelib.unmarshal(ann, v), P),
+                   "members": [enc.run_real(lambda m=m: typelib.unmarshal(m, v), P) for m in members],
+                   "munion": enc.run_real(lambda: typelib.marshal(v, t=ann), P),
+                   "mmembers": [enc.run_real(lambda m=m: typelib.marshal(v, t=m), P) for m in members]}
+            outs.append(res)
         elif kind == "umum":
             # idempotence: unmarshal twice
             box = {}
@@ -190,9 +236,12 @@ def lean_core(jobs):
         lines.append({"op": "env", "env": enc.lean_env(job["prog"])})
         index.append((ji, None))
         for oi, op in enumerate(job["ops"]):
-            l = {"op": "um" if op["op"] == "umum" else op["op"], "val": op["val"]}
-            if "ty" in op:
-                l["ty"] = enc.strip_hints(op["ty"])
+            if op["op"] == "strload":
+                l = {"op": "strload", "s": op["s"]}
+            else:
+                l = {"op": {"umum": "um", "textequiv": "um", "union": "um"}.get(op["op"], op["op"]), "val": op["val"]}
+                if "ty" in op:
+                    l["ty"] = enc.strip_hints(op["ty"])
             lines.append(l)
             index.append((ji, oi))
     outs = lean.drive(lines)
